@@ -418,7 +418,9 @@ class SweepDeadEntries(Contract):
     bounded_scope = "registries of 0-3 entries with every pattern of live / dead (exhaustive), for each of the five kinds"
 
     def cases(self):
-        return [(kind, pat) for kind in ("Groups", "Objects", "Data", "Types", "PropertyGroups") for n in range(0, 4) for pat in itertools.product((True, False), repeat=n)]
+        # for types: "dead-in-use" = the type object is gone but stored records of a drillhole group still name the type
+        return [(kind, pat) for kind in ("Groups", "Objects", "Data", "Types", "PropertyGroups") for n in range(0, 4)
+                for pat in itertools.product((True, False) + (("dead-in-use",) if kind == "Types" else ()), repeat=n)]
 
     def setup(self, ctx):
         import uuid
@@ -437,7 +439,12 @@ class SweepDeadEntries(Contract):
         me.attrs["_io_call"] = ioc
         reg = {}
         keep = []
+        in_use = {uuid.UUID(int=i + 1) for i, st in enumerate(pat) if st == "dead-in-use"}
+        stub = Opaque("_type_in_stored_records")
+        stub.maybe_method = lambda I, a, kw: (I.event("asked-whether-in-use", uid=a[0]), a[0] in in_use)[1]
+        me.attrs["_type_in_stored_records"] = stub
         for i, alive in enumerate(pat):
+            alive = alive is True
             target = Opaque(f"entity-{i}")
             ctx.path.assume(~target.none_var())  # a live reference yields its entity
             keep.append(target)
@@ -452,10 +459,13 @@ class SweepDeadEntries(Contract):
         e = ctx.env
         kind, pat = ctx.case
         left = set(e["d"].items)
-        want = {k for k, alive in zip(e["keys"], pat) if alive}
+        want = {k for k, alive in zip(e["keys"], pat) if alive is True}
         ctx.oblige("exactly-the-dead-entries-leave-the-registry", left == want, note=f"left {sorted(k.int for k in left)}, expected {sorted(k.int for k in want)}")
         ios = [p for k, p in ctx.path.events if k == "io"]
-        dead = [k for k, alive in zip(e["keys"], pat) if not alive]
+        dead = [k for k, alive in zip(e["keys"], pat) if alive is False]
+        kept_types = [k for k, alive in zip(e["keys"], pat) if alive == "dead-in-use"]
+        ctx.oblige("a-type-still-named-by-stored-records-stays-in-the-file", not any(p["args"][:1] == [k] for p in ios for k in kept_types),
+                   note="the type was deleted from the file although data that are not loaded (concatenated records) still use it: they can no longer be read")
         if kind == "PropertyGroups":
             ctx.oblige("property-groups-have-no-container-in-the-file-to-clear", not ios, note="the file has no 'PropertyGroups' container: asking the writer to delete from it fails")
         else:
